@@ -54,6 +54,9 @@ CLAIMED.update({
  "C03": C("stateful (model-based) property-based testing: generated operation histories over a small key pool, BTreeSet/BTreeMap reference model, full observation after every step",
           "Operation histories over GraphMap for two key types, both edge types and four hashers (incl. an all-colliding one); every query for every pool key/pair, the iterators and the compact index numbering are compared with the model after every operation.",
           "the 30-line reference model in props/c03.rs", "DESIGN.md section 5, C03"),
+ "C04": C("stateful (model-based) property-based testing: generated operation histories across capacity steps and id reuse, BTreeMap reference model with free id choice, full observation after every step",
+          "Operation histories over MatrixGraph in 12 configurations (edge type x null element x index width), crossing the 4/8/16/32/64 matrix growth steps and filling the u8 index space; all queries and iterators compared with a map model after every operation; documented panics must leave the graph unchanged.",
+          "the BTreeMap model in props/c04.rs", "DESIGN.md section 5, C04"),
 })
 PLANNED = {}
 
